@@ -24,6 +24,7 @@ func init() {
 			"(cooldown) release paths only ever redirect an ordinal to a fresh ReleasedAt attribute stamped with Now(), the ordinal is returned to Unallocated only in garbageCollect and only on paths where ReleasedAt!=nil and (cooldown<0 or ReleasedAt.Before(Now-cooldown)), autoAssign only hands out ordinals taken from Unallocated and assign refuses non-free ordinals; " +
 			"(fifo) garbageCollect appends at the tail of Unallocated and autoAssign consumes it from index 0 upwards; " +
 			"(nowrite) after allocationBlock.release no datastore write is reachable unless its error is nil; " +
+			"(blockdel) the cooldown state lives only in the block: every blockReaderWriter.deleteBlock call in lib/ipam is guarded by allocationBlock.empty()==true, and in empty() an ordinal with Allocations[i]!=nil can only be disregarded across an edge establishing that its attribute has a HandleID (cooldown attributes carry none), so a block holding only cooling-down addresses is never empty; " +
 			"(seqopts) the GC's allocation.ReleaseOptions() fills every ReleaseOptions field, and ip/handle/sequenceNumber of an allocation are read for the same ordinal; only such options reach ReleaseIPs in the node controller.",
 		NotDecided: "Wall-clock behaviour (clock skew between writers), that autoAssign preserves the relative order of the ordinals it leaves in Unallocated, datastore CAS (C19), interleavings across clients, and that a repeated release carrying the old sequence number is reported as a conflict rather than as success (state is unchanged either way).",
 		Assumptions: []string{
@@ -70,6 +71,12 @@ func init() {
 				Old: "b.Unallocated = append(b.Unallocated, o)", New: "b.Unallocated = append([]int{o}, b.Unallocated...)", Expect: "C21.fifo/garbageCollect"},
 			{Name: "block written although release() failed", File: "libcalico-go/lib/ipam/ipam.go",
 				Old: "\t\tif err2 != nil {\n\t\t\treturn nil, err2\n\t\t}\n", New: "\t\tif err2 != nil {\n\t\t\tlogCtx.WithError(err2).Warn(\"release failed\")\n\t\t}\n", Expect: "C21.nowrite/ipamClient.releaseIPsFromBlock"},
+			{Name: "empty() ignores addresses that are cooling down", File: "libcalico-go/lib/ipam/ipam_block.go",
+				Old: "\t\tattrs := b.Attributes[*attrIdx]\n\t\tif attrs.HandleID == nil ||", New: "\t\tattrs := b.Attributes[*attrIdx]\n\t\tif attrs.ReleasedAt != nil {\n\t\t\tcontinue\n\t\t}\n\t\tif attrs.HandleID == nil ||", Expect: "C21.blockdel/empty/counts-cooldown"},
+			{Name: "empty() only counts allocations that have a handle", File: "libcalico-go/lib/ipam/ipam_block.go",
+				Old: "\t\tif attrs.HandleID == nil || strings.ToLower(*attrs.HandleID) != WindowsReservedHandle {", New: "\t\tif attrs.HandleID != nil && strings.ToLower(*attrs.HandleID) != WindowsReservedHandle {", Expect: "C21.blockdel/empty/counts-cooldown"},
+			{Name: "release by handle deletes an affinity-less block without checking it is empty", File: "libcalico-go/lib/ipam/ipam.go",
+				Old: "if block.empty() && block.Affinity == nil {", New: "if block.Affinity == nil {", Expect: "C21.blockdel/guard/ipamClient.releaseByHandle"},
 			{Name: "GC release options drop the sequence number", File: "kube-controllers/pkg/controllers/node/ipam_allocation.go",
 				Old: "\t\tHandle:         a.handle,\n\t\tSequenceNumber: &a.sequenceNumber,\n", New: "\t\tHandle:         a.handle,\n", Expect: "C21.seqopts/ReleaseOptions"},
 			{Name: "GC builds its own release options", File: "kube-controllers/pkg/controllers/node/ipam.go",
@@ -89,6 +96,7 @@ func runC21(c *Ctx) {
 	c.Rule("C21.cooldown", "E-FLOW/E-GUARD/E-OWN", "release paths store only fresh ReleasedAt attributes; ordinals return to Unallocated only in garbageCollect on paths with ReleasedAt!=nil && (cooldown<0 || ReleasedAt.Before(Now-cooldown)); autoAssign draws from Unallocated; assign refuses non-free ordinals", 16)
 	c.Rule("C21.fifo", "E-FLOW", "garbageCollect appends freed ordinals at the tail of Unallocated; autoAssign takes Unallocated[i] for i ascending from 0", 2)
 	c.Rule("C21.nowrite", "E-ERR", "after allocationBlock.release every datastore write (updateBlock/deleteBlock/handle update) is guarded by its error == nil", 3)
+	c.Rule("C21.blockdel", "E-GUARD/E-PATH", "a block is deleted only when allocationBlock.empty() returned true, and empty() treats every allocated ordinal whose attribute carries no handle (in particular one in cooldown) as occupying the block", 5)
 	c.Rule("C21.seqopts", "E-FIELDS/E-FLOW", "node controller: allocation.ReleaseOptions() sets every ReleaseOptions field from the allocation; ip/handle/sequenceNumber are read for one ordinal; only ReleaseOptions() results reach ReleaseIPs", 6)
 
 	c21Validate(m)
@@ -99,6 +107,7 @@ func runC21(c *Ctx) {
 	c21Fifo(m)
 	c21NoWrite(m)
 	c21SeqOpts(m)
+	c21BlockDel(m)
 }
 
 // ------------------------------------------------------------------ validate --
@@ -1455,4 +1464,108 @@ func c21OnlyReleaseOptions(v ssa.Value, ro *ssa.Function, seen map[ssa.Value]boo
 		return true, ""
 	}
 	return false, "slice built by " + path(v)
+}
+
+// ------------------------------------------------------------------ blockdel --
+
+// c21BlockDel: the cooldown state of a released address lives only in its
+// block (the ReleasedAt attribute its ordinal points to), so deleting the block
+// forgets it.  Decided: (1) every call of blockReaderWriter.deleteBlock in
+// lib/ipam is guarded by allocationBlock.empty() == true; (2) empty() counts
+// ordinals in cooldown as occupying the block: once Allocations[i] != nil is
+// established, the ordinal may only be disregarded (next iteration, or a
+// result other than false) across an edge that establishes that its attribute
+// carries a handle (HandleID != nil) — cooldown attributes carry none
+// (C21.cooldown/addCooldownAttribute/stamped).
+func c21BlockDel(m *c21Model) {
+	c, p := m.c, m.p
+	empty := m.fn(c21IpamPkg, "allocationBlock.empty")
+	del := m.fn(c21IpamPkg, "blockReaderWriter.deleteBlock")
+
+	// (1) delete sites
+	isEmpty := callCond(true, func(cs CallSite) bool { return calleeFn(cs.Common()) == empty })
+	nDel := 0
+	for _, f := range p.AllFuncs() {
+		if f.Pkg == nil || !strings.HasSuffix(f.Pkg.Pkg.Path(), c21IpamPkg) {
+			continue
+		}
+		for _, cs := range callsIn(f, false, func(fn *types.Func) bool { return fn == del.Object() }) {
+			nDel++
+			c.Check(guardedCut(cs.Instr, isEmpty), "C21.blockdel/guard/"+fnName(f), p.Pos(cs.Instr.Pos()),
+				"deleteBlock is only reachable when allocationBlock.empty() returned true",
+				"deleteBlock in "+fnName(f)+" is reachable without allocationBlock.empty() having returned true: a block that still holds addresses in cooldown (or in use) is deleted and the ReleasedAt stamps are lost, so a just released address is handed out again from the re-created block")
+		}
+	}
+	if nDel == 0 {
+		c.Lost("no call of blockReaderWriter.deleteBlock in %s", c21IpamPkg)
+	}
+
+	// (2) empty() sees ordinals in cooldown
+	key := "C21.blockdel/empty/counts-cooldown"
+	nIf := 0
+	for _, b := range empty.Blocks {
+		if len(b.Instrs) == 0 {
+			continue
+		}
+		ifi, ok := b.Instrs[len(b.Instrs)-1].(*ssa.If)
+		if !ok || len(b.Succs) != 2 {
+			continue
+		}
+		cond0, _ := stripNot(ifi.Cond, true)
+		x, _, ok := c21NilCmp(cond0, true)
+		if !ok {
+			continue
+		}
+		if _, isAlloc := m.allocElem(x); !isAlloc {
+			continue
+		}
+		nIf++
+		cut := func(cond ssa.Value, pol bool) bool {
+			y, isNil, ok := c21NilCmp(cond, pol)
+			if !ok {
+				return false
+			}
+			if cond == cond0 {
+				return isNil // the "not allocated" edge of this test
+			}
+			return !isNil && fieldVar(y) == m.fHandleID // attribute carries a handle
+		}
+		loopBack := func(in ssa.Instruction) bool { return in.Block().Dominates(b) }
+		definite := c23ReachAvoiding(ifi, nil, cut, func(in ssa.Instruction) bool {
+			if loopBack(in) {
+				return true
+			}
+			r, isRet := in.(*ssa.Return)
+			if !isRet || len(r.Results) != 1 {
+				return false
+			}
+			cv, isConst := constOf(r.Results[0])
+			return isConst && cv.String() == "true"
+		})
+		if definite != nil {
+			how := "the next loop iteration"
+			if _, isRet := definite.(*ssa.Return); isRet {
+				how = "`return true` at " + p.Pos(definite.Pos())
+			}
+			c.Violate(key, p.Pos(cond0.Pos()), "allocationBlock.empty: an ordinal with Allocations[i] != nil can be disregarded (reaching %s) without establishing that its attribute has a HandleID: "+
+				"addresses in cooldown (handle-less ReleasedAt attributes) no longer keep the block non-empty, the block is deleted and the cooldown is lost", how)
+			continue
+		}
+		unsure := c23ReachAvoiding(ifi, nil, cut, func(in ssa.Instruction) bool {
+			r, isRet := in.(*ssa.Return)
+			if !isRet || len(r.Results) != 1 {
+				return false
+			}
+			cv, isConst := constOf(r.Results[0])
+			return !isConst || cv.String() != "false"
+		})
+		if unsure != nil {
+			c.Undecided(key, p.Pos(unsure.Pos()), "allocationBlock.empty: the result returned for an allocated ordinal without a handle is not a constant")
+			continue
+		}
+		c.Ok(key, p.Pos(cond0.Pos()), "an allocated ordinal whose attribute has no handle (in use without handle, or in cooldown) always makes empty() return false")
+	}
+	if nIf == 0 {
+		c.Undecided(key, p.Pos(empty.Pos()), "allocationBlock.empty does not test the elements of Allocations for nil: cannot decide whether it counts addresses in cooldown")
+	}
 }
